@@ -1,3 +1,32 @@
-(* placeholder until proofs/IOP.v lands *)
-From TF Require Import IO.
-Example C12_stub : True. Proof. exact I. Qed.
+(* Property C12 — a crash at any I/O step leaves the file holding the old or the new contents.
+   IO.v gives every storage operation as a script of I/O steps on a world (rows on disk,
+   unflushed rows, temporary file, staged copy); the plans (append / rewrite via staged copy
+   and atomic replace / truncate / nothing) are the ones database.py takes.  For EVERY
+   prefix length k of EVERY script, every list of rows, the primary file holds an allowed
+   state.  One flush is one atomic write in this model. *)
+From Coq Require Import List ZArith NArith Bool.
+From TF Require Import Base Query Index DB IO proofs.IOP.
+Import ListNotations.
+
+Theorem C12_crash_atomic : forall old p k,
+  crash_allowed old p (w_disk (run_steps (world_of old) (firstn k (script_of old p)))).
+Proof. exact crash_atomic. Qed.
+(* what the harness evaluates (crash_states) is exactly the set of prefix states *)
+Theorem C12_crash_states : forall old p d,
+  In d (crash_states (world_of old) (script_of old p)) -> crash_allowed old p d.
+Proof. exact crash_states_allowed. Qed.
+Theorem C12_crash_states_are_prefixes : forall w ss d,
+  In d (crash_states w ss) <-> exists k, k <= length ss /\ d = w_disk (run_steps w (firstn k ss)).
+Proof. exact crash_states_prefixes. Qed.
+(* points stored by earlier operations are never lost or altered by an interrupted insert *)
+Theorem C12_insert_keeps_old : forall old rows k,
+  exists rest, w_disk (run_steps (world_of old) (firstn k (script_of old (PlAppend rows)))) = old ++ rest.
+Proof. exact crash_insert_keeps_old. Qed.
+Example C12_nonvacuous : exists old p k, p = PlRewrite [] /\ old <> [] /\
+  w_disk (run_steps (world_of old) (firstn k (script_of old p))) = [].
+Proof. exact crash_example. Qed.
+
+Print Assumptions C12_crash_atomic.
+Print Assumptions C12_crash_states.
+Print Assumptions C12_crash_states_are_prefixes.
+Print Assumptions C12_insert_keeps_old.
